@@ -542,6 +542,8 @@ class Scene:
         obs['att_calls'] = list(att.calls)
         obs['zeff'] = call(plasma.z_effective, *case['plasma_point'])
         obs['ion_density'] = call(plasma.ion_density, *case['plasma_point'])
+        obs['species_ids'] = [id(sp_) for sp_ in plasma.composition]
+        obs['n_species'] = len(plasma.composition)
         return obs
 
     # ---- changes through public API ------------------------------------------------------------------------------
@@ -554,6 +556,7 @@ class Scene:
             if sum(1 for s in case['species'] if s['charge'] >= 1 and s['n'][0] > 0) > 1:
                 out.append('model.line')
         out += ['beam.atomic_data', 'beam.atomic_data'] if self.attached else ['model.atomic_data', 'model.atomic_data']
+        out += REJECTED      # assignments / calls that must raise and leave everything as it was
         return out
 
     def apply(self, rng, case, change):
@@ -563,6 +566,8 @@ class Scene:
         from cherab.core.atomic import Line, elements
         k = _classes()
         sp = case['species']
+        if change.startswith('rejected:'):
+            return self.apply_rejected(rng, case, change)
         ent = [(s, i) for i, s in enumerate(sp)]
         new = None
         if change in ('composition.add:replace-receiver', 'composition.add:replace-species'):
@@ -647,6 +652,63 @@ class Scene:
                 raise ValueError(change)
         new['edge'] = 'after-' + change
         return new
+
+
+REJECTED = ['rejected:plasma.composition=[species..., non-Species]', 'rejected:plasma.composition=[species..., non-Species]',
+            'rejected:plasma.composition=[species..., None]', 'rejected:composition.set([species..., non-Species])',
+            'rejected:composition.set([non-Species, species...])', 'rejected:plasma.composition=non-iterable',
+            'rejected:composition.add(None)', 'rejected:composition.add(non-Species)',
+            'rejected:beam.energy=negative', 'rejected:beam.power=negative', 'rejected:beam.temperature=negative',
+            'rejected:beam.element=None', 'rejected:beam.atomic_data=wrong-type', 'rejected:model.atomic_data=wrong-type',
+            'rejected:plasma.atomic_data=wrong-type', 'rejected:beam.models=[model, non-model]', 'rejected:plasma.models=[non-model]',
+            'rejected:plasma.electron_distribution=wrong-type', 'rejected:model.line=None',
+            'rejected:beam.attenuator=None', 'rejected:beam.plasma=None', 'rejected:model.plasma=None', 'rejected:model.beam=None']
+
+
+def _apply_rejected(self, rng, case, change):
+    """an assignment / call that must raise; the description of the current state stays what it was"""
+    what = change[len('rejected:'):]
+    sp = case['species']
+    k = list(range(len(sp)))
+    rng.shuffle(k)
+    # valid Species with *new* parameters in front of the offending item: a partially applied list shows in the values
+    valid = [_mk_species(redraw_species(rng, sp[i])) for i in k[:rng.randint(1, len(k))]]
+
+    def setattr_(obj, name, value):
+        return lambda: setattr(obj, name, value)
+
+    act = {
+        'plasma.composition=[species..., non-Species]': setattr_(self.plasma, 'composition', valid + ['not a species']),
+        'plasma.composition=[species..., None]': setattr_(self.plasma, 'composition', valid + [None]),
+        'composition.set([species..., non-Species])': lambda: self.plasma.composition.set(valid + [42]),
+        'composition.set([non-Species, species...])': lambda: self.plasma.composition.set([object()] + valid),
+        'plasma.composition=non-iterable': setattr_(self.plasma, 'composition', 5),
+        'composition.add(None)': lambda: self.plasma.composition.add(None),
+        'composition.add(non-Species)': lambda: self.plasma.composition.add('deuterium'),
+        'beam.energy=negative': setattr_(self.beam, 'energy', -abs(case['energy'])),
+        'beam.power=negative': setattr_(self.beam, 'power', -1.0),
+        'beam.temperature=negative': setattr_(self.beam, 'temperature', -1.0),
+        'beam.element=None': setattr_(self.beam, 'element', None),
+        'beam.atomic_data=wrong-type': setattr_(self.beam, 'atomic_data', rng.choice([None, 'openadas', 7])),
+        'model.atomic_data=wrong-type': setattr_(self.model, 'atomic_data', rng.choice([None, 'openadas', 7])),
+        'plasma.atomic_data=wrong-type': setattr_(self.plasma, 'atomic_data', rng.choice(['openadas', 7])),
+        'beam.models=[model, non-model]': setattr_(self.beam, 'models', [self.model, 'not a model']),
+        'plasma.models=[non-model]': setattr_(self.plasma, 'models', [self.model]),
+        'plasma.electron_distribution=wrong-type': setattr_(self.plasma, 'electron_distribution', 'maxwellian'),
+        'model.line=None': setattr_(self.model, 'line', None),
+        'beam.attenuator=None': setattr_(self.beam, 'attenuator', None),
+        'beam.plasma=None': setattr_(self.beam, 'plasma', None),
+        'model.plasma=None': setattr_(self.model, 'plasma', None),
+        'model.beam=None': setattr_(self.model, 'beam', None),
+    }[what]
+    st, msg = call(act)
+    self.last_rejection = (st, msg)
+    new = copy.deepcopy(case)
+    new['edge'] = 'after-' + change
+    return new
+
+
+Scene.apply_rejected = _apply_rejected
 
 
 def redraw_species(rng, s):
@@ -917,6 +979,31 @@ def check_property(ctx, case, obs, after=None, root=None):
         fail('beam-density-point', 'beam density sampled at %r, beam point is %r' % (obs['att_calls'][0], case['beam_point']))
 
 
+def check_rejected(ctx, case, obs, prev, change, root):
+    """a refused assignment / call leaves the composition and the emission exactly as they were"""
+    who = 'BeamCXLine.emission' if case['kind'] == 'cx' else 'BeamEmissionLine.emission'
+    rep = dict(case=root, state=case, change=change)
+    if obs['species_ids'] != prev['species_ids'] or obs['n_species'] != prev['n_species']:
+        ctx.fail('C05:%s:after-%s:composition-changed-by-rejected-change' % (who, change),
+                 '%s raised, yet the composition changed: %d species %r before, %d species %r after'
+                 % (change, prev['n_species'], prev['order'], obs['n_species'], obs['order']), rep)
+
+    def emitted(o):
+        if o['status'] != 'ok':
+            return ('raised', o['status'])
+        return tuple(l[0] for l in o['lines']) if case['kind'] == 'cx' else (o['total'],)
+
+    a, b = emitted(prev), emitted(obs)
+    same = len(a) == len(b) and all(x == y or (x != x and y != y) for x, y in zip(a, b))
+    if not same:
+        ctx.fail('C05:%s:after-%s:emission-changed-by-rejected-change' % (who, change),
+                 '%s raised, yet the emission changed from %r to %r' % (change, a, b), rep)
+    for name in ('zeff', 'ion_density'):
+        if prev[name] != obs[name] and not (prev[name][1] != prev[name][1]):
+            ctx.fail('C05:Plasma.%s:after-%s:changed-by-rejected-change' % ('z_effective' if name == 'zeff' else name, change),
+                     '%s raised, yet %s changed from %r to %r' % (change, name, prev[name], obs[name]), rep)
+
+
 def check_plasma(ctx, case, obs):
     """Plasma.z_effective / ion_density against the formulas, and the range of Z_eff"""
     sp = sample_species(case)
@@ -1074,14 +1161,15 @@ def gen_all(ctx, n):
 
 
 def expand(ctx, case):
-    """the evaluations one generated case stands for: [(state description, observation, change | None)]"""
+    """the evaluations one generated case stands for: [(state description, observation, change | None, previous obs)]"""
     re = case.get('reeval')
     if not re:
-        return [(case, run_impl(case), None)]
+        return [(case, run_impl(case), None, None)]
     import random
     rng = random.Random(re['seed'])
     sc = Scene(case, re['attached'])
-    out = [(case, sc.observe(case), None)]
+    prev = sc.observe(case)
+    out = [(case, prev, None, None)]
     cur = case
     for _ in range(re['n']):
         ch = rng.choice(sc.changes(cur))
@@ -1089,9 +1177,16 @@ def expand(ctx, case):
         if st != 'ok':
             ctx.broke('correspondence', 'C05 re-evaluation stream: change %s raised %s' % (ch, st), dict(msg=new, case=case))
             break
+        rejected = ch.startswith('rejected:')
+        if rejected and sc.last_rejection[0] == 'ok':
+            # the API accepted what it documents to refuse; the state that follows is not defined by C05
+            ctx.broke('correspondence', 'C05 re-evaluation stream: %s did not raise' % ch, dict(case=case))
+            break
         new.pop('reeval', None)
         cur = new
-        out.append((cur, sc.observe(cur), ch))
+        obs = sc.observe(cur)
+        out.append((cur, obs, ch, prev if rejected else None))
+        prev = obs
     return out
 
 
@@ -1106,13 +1201,28 @@ def corpus_cases():
     return out
 
 
+class _Spy:
+    """ctx that remembers whether a failing input was reported through it"""
+
+    def __init__(self, ctx):
+        self._ctx = ctx
+        self.hit = False
+
+    def __getattr__(self, name):
+        return getattr(self._ctx, name)
+
+    def fail(self, *a, **k):
+        self.hit = True
+        return self._ctx.fail(*a, **k)
+
+
 def process(ctx, cases):
     stats = dict(**{'bit-exact': 0, 'rounded': 0, 'maxrel': 0.0})
     lines = ['const ' + fs([E_CHARGE, AMU, RECIP_4_PI])]
     items = []
     for root in cases:
-        for state, obs, change in expand(ctx, root):
-            items.append((root, state, obs, change))
+        for state, obs, change, prev in expand(ctx, root):
+            items.append((root, state, obs, change, prev))
             lines.append(model_line(state))
             lines.append(plasma_line(state))
     if not items:
@@ -1120,7 +1230,8 @@ def process(ctx, cases):
     outs = ctx.driver(lines)
     if outs[0] != 'ok':
         ctx.broke('correspondence', 'C05 driver const', outs[0])
-    for j, (root, case, obs, change) in enumerate(items):
+    derailed = set()
+    for j, (root, case, obs, change, prev) in enumerate(items):
         sp = case['species']
         key = (case['kind'], case['edge'], len(sp), sum(1 for s in sp if s['charge'] == 0),
                len(case.get('metas', [])), f2b(case['energy']))
@@ -1137,11 +1248,21 @@ def process(ctx, cases):
             ctx.count('%s:with-neutral' % case['kind'])
         if root.get('reeval'):
             ctx.count('re-evaluation:%s' % ('attached' if root['reeval']['attached'] else 'detached'))
+        if id(root) in derailed:
+            # an earlier step of this change sequence already failed: the description no longer tracks the scene
+            ctx.count('re-evaluation: step after a failed step (not judged)')
+            continue
+        nb_ = len(ctx.broken)
         compare(ctx, case, obs, outs[1 + 2 * j], stats)
         compare_plasma(ctx, case, obs, outs[2 + 2 * j])
         ctx.traces += 2
-        check_property(ctx, case, obs, after=change, root=root)
-        check_plasma(ctx, case, obs)
+        spy = _Spy(ctx)
+        check_property(spy, case, obs, after=change, root=root)
+        if prev is not None:
+            check_rejected(spy, case, obs, prev, change, root)
+        check_plasma(spy, case, obs)
+        if root.get('reeval') and (spy.hit or len(ctx.broken) > nb_):
+            derailed.add(id(root))
     return stats
 
 
